@@ -439,6 +439,16 @@ class simplify_chained_calls(FuncADLNodeTransformer):
         else:
             return FuncADLNodeTransformer.visit_Call(self, call_node)
 
+    def visit_Lambda(self, node: ast.Lambda):
+        """A lambda's own arguments hide any definition of the same names further up the
+        argument stack: `(lambda x: Select(s, lambda x: x + 1))(y)` must not replace the
+        inner `x`.
+        """
+        with stack_frame(self._arg_stack):
+            for a in node.args.args:
+                self._arg_stack.define_name(a.arg, ast.Name(a.arg, ast.Load()))
+            return self.generic_visit(node)
+
     def visit_Subscript_Tuple(self, v: ast.Tuple, s: ast.Constant):
         """
         (t1, t2, t3...)[1] => t2
